@@ -979,6 +979,7 @@ func (r *Reader) parseBodyElementsInOrder(data []byte) error {
 
 	decoder := xml.NewDecoder(strings.NewReader(string(data)))
 	var inBody bool
+	var depth int // nesting depth below <w:body>; its direct children are at depth 1
 	var paraIndex, tableIndex int
 
 	for {
@@ -990,12 +991,19 @@ func (r *Reader) parseBodyElementsInOrder(data []byte) error {
 		switch t := token.(type) {
 		case xml.StartElement:
 			// Check if we're entering the body
-			if t.Name.Local == "body" {
-				inBody = true
+			if !inBody {
+				if t.Name.Local == "body" {
+					inBody = true
+					depth = 0
+				}
 				continue
 			}
 
-			if !inBody {
+			// Only direct children of the body are body-level elements (the
+			// unmarshalled Paragraphs/Tables slices hold exactly those);
+			// paragraphs and tables nested in table cells are not.
+			depth++
+			if depth != 1 {
 				continue
 			}
 
@@ -1019,8 +1027,12 @@ func (r *Reader) parseBodyElementsInOrder(data []byte) error {
 				}
 			}
 		case xml.EndElement:
-			if t.Name.Local == "body" {
-				inBody = false
+			if inBody {
+				if depth == 0 {
+					inBody = false
+				} else {
+					depth--
+				}
 			}
 		}
 	}
